@@ -157,13 +157,48 @@ pub fn families(focus: Focus) -> Vec<Box<dyn Family>> {
     ));
     v.push(family(
         "far",
-        "long pairs with a LARGE edit distance: (a) two mostly unrelated sequences of 2500..5000 items (thorough up to 9000) sharing 5..80 landmarks (the search runs for thousands of rounds), (b) common head/tail around a replaced block with strongly asymmetric sizes (10..6000 old items replaced by 10..6000 unrelated new items) x {Myers, Patience}; C03 compares with the DP optimum; deadline none + 4 sampled expiry points (not C03)",
+        "long pairs with a LARGE edit distance: (a) two mostly unrelated sequences of 2500..5000 items (thorough up to 9000) sharing 5..80 landmarks (the search runs for thousands of rounds), (b) common head/tail around a replaced block with strongly asymmetric sizes (10..6000 old items replaced by 10..6000 unrelated new items) x {Myers, Patience}, (c) lopsided AND deep: 0..60 items against 8300..12500 unrelated ones (more than 4096 search rounds in a box one of whose sides is shorter than that), (d) LCS on unrelated inputs of 1100..2600 items per side (millions of table cells); C03 compares with the DP optimum; deadline none + 4 sampled expiry points (not C03)",
         false,
         1,
-        move |cfg| if cfg.tiny { 2 } else { cfg.tier.pick(24, 160) },
+        move |cfg| if cfg.tiny { 2 } else { cfg.tier.pick(32, 200) },
         move |idx, cfg, out| {
             let mut rng = Rng::for_case(cfg.seed, "captured.far", idx);
             let lcs_sparse = idx == 5 && !cfg.tiny && focus == Focus::C03;
+            let kind = if cfg.tiny { 0 } else { idx % 8 };
+            if kind == 6 {
+                // (c) LOPSIDED AND DEEP: 0..60 items on one side replaced by 8300..12500 unrelated items on the
+                // other: one box whose search needs more than 4096 rounds while one side is shorter than the
+                // number of rounds.  All items distinct: the optimum is known by construction.
+                let small = *rng.pick(&[0usize, 1, 5, 20, 60]);
+                let large = rng.range(8300, 12_500);
+                let (head, tail) = (rng.below(40), rng.below(40));
+                let (a, b) = if rng.chance(1, 2) { gen::asymmetric_replace_distinct(head, tail, small, large) } else { gen::asymmetric_replace_distinct(head, tail, large, small) };
+                let alg = if focus == Focus::C03 || rng.chance(1, 2) { Algorithm::Myers } else { Algorithm::Patience };
+                out.sample(|| format!("alg={} N={} M={} (lopsided: {} items against {} unrelated ones)", alg_name(alg), a.len(), b.len(), small, large));
+                out.count("far_cases_lopsided_above_4096_rounds");
+                struct ResetKnown;
+                impl Drop for ResetKnown {
+                    fn drop(&mut self) {
+                        KNOWN_OPTIMUM.with(|k| k.set(None));
+                    }
+                }
+                let _reset = ResetKnown;
+                KNOWN_OPTIMUM.with(|k| k.set(Some(small + large)));
+                captured_case(focus, cfg, alg, &a, 0..a.len(), &b, 0..b.len(), rng.below(5) as u8, false, out);
+                return;
+            }
+            if kind == 7 {
+                // (d) LCS on MID-SIZED unrelated inputs (1100..2600 items per side, 1.2 .. 6.8 million table
+                // cells) sharing a few landmarks
+                let (n, m) = (rng.range(1100, 2600), rng.range(1100, 2600));
+                let k = rng.range(1, 60);
+                let crossing = rng.below(4);
+                let (a, b) = gen::landmark_pair(&mut rng, n, m, k, crossing);
+                out.sample(|| format!("alg=lcs N={} M={} ({} landmarks)", a.len(), b.len(), k));
+                out.count("far_cases_lcs_millions_of_cells");
+                captured_case(focus, cfg, Algorithm::Lcs, &a, 0..a.len(), &b, 0..b.len(), rng.below(5) as u8, false, out);
+                return;
+            }
             let (a, b) = if cfg.tiny {
                 gen::asymmetric_replace(&mut rng, 2, 2, 5, 1)
             } else if lcs_sparse {
@@ -282,6 +317,73 @@ pub fn families(focus: Focus) -> Vec<Box<dyn Family>> {
             KNOWN_OPTIMUM.with(|k| k.set(Some(2 * l)));
             captured_case(focus, cfg, alg, &a, 0..a.len(), &b, 0..b.len(), 2, false, out);
             captured_case(focus, cfg, alg, &a, 0..a.len(), &b, 0..b.len(), 0, false, out);
+        },
+    ));
+    v.push(family(
+        "many_edits",
+        "MANY SEPARATE CHANGES: 6000..7500 hunks (thorough up to 40000) in a sequence of otherwise distinct items - more than 10000 raw edit calls and ~2 x hunks captured ops; every 7th hunk needs the clean-up (`q s t` -> `s i s t`), pure insertions and deletions in between x {Myers, Patience}; plus LCS on a pure block deletion / insertion of 10100..13000 items next to such a hunk (one raw call per item); optimum known by construction",
+        false,
+        1,
+        move |cfg| if cfg.tiny { 1 } else { cfg.tier.pick(4, 30) },
+        move |idx, cfg, out| {
+            let mut rng = Rng::for_case(cfg.seed, "captured.many_edits", idx);
+            struct ResetKnown;
+            impl Drop for ResetKnown {
+                fn drop(&mut self) {
+                    KNOWN_OPTIMUM.with(|k| k.set(None));
+                }
+            }
+            let _reset = ResetKnown;
+            if idx % 3 == 2 && !cfg.tiny {
+                // LCS: one block of thousands of items removed (or added) in front of a clean-up-sensitive hunk
+                let block = rng.range(10_100, 13_000);
+                let head = rng.below(50);
+                let mut a: Vec<u32> = (0..head as u32).map(|i| 1_000_000 + i).collect();
+                let mut b = a.clone();
+                a.extend((0..block as u32).map(|i| 10_000_000 + i));
+                a.extend_from_slice(&[5, 50, 6, 7]);
+                b.extend_from_slice(&[5, 6, 60, 6, 7]);
+                a.extend((0..30u32).map(|i| 2_000_000 + i));
+                b.extend((0..30u32).map(|i| 2_000_000 + i));
+                let (a, b) = if rng.chance(1, 2) { (a, b) } else { (b, a) };
+                KNOWN_OPTIMUM.with(|k| k.set(Some(block + 3)));
+                out.sample(|| format!("alg=lcs N={} M={} (block of {} items on one side only)", a.len(), b.len(), block));
+                out.count("many_edits_lcs_block_cases");
+                captured_case(focus, cfg, Algorithm::Lcs, &a, 0..a.len(), &b, 0..b.len(), rng.below(5) as u8, false, out);
+                return;
+            }
+            let hunks = if cfg.tiny { 8 } else { rng.range(6000, cfg.tier.pick(7500, 40_000)) };
+            let (a, b, opt) = gen::many_hunks_pair(hunks);
+            let (a, b) = if rng.chance(1, 2) { (a, b) } else { (b, a) };
+            let alg = if focus == Focus::C03 || idx % 2 == 0 { Algorithm::Myers } else { Algorithm::Patience };
+            KNOWN_OPTIMUM.with(|k| k.set(Some(opt)));
+            out.sample(|| format!("alg={} N={} M={} ({} hunks, optimum {})", alg_name(alg), a.len(), b.len(), hunks, opt));
+            out.count("many_edits_cases");
+            captured_case(focus, cfg, alg, &a, 0..a.len(), &b, 0..b.len(), rng.below(5) as u8, false, out);
+        },
+    ));
+    v.push(family(
+        "moved_blocks",
+        "all items unique per side: ordered common items in 4..40 runs of 2..19 items separated by one-sided noise, and a contiguous block of 20..70 common items that sits at DIFFERENT places of the two sides (moved across the runs) x {Myers, Patience} (C03: Myers, LCS when small): a search that commits to the first long snake it meets is no longer minimal; DP oracle",
+        false,
+        1,
+        move |cfg| if cfg.tiny { 2 } else { cfg.n(80, 6000) },
+        move |idx, cfg, out| {
+            let mut rng = Rng::for_case(cfg.seed, "captured.moved_blocks", idx);
+            let runs = if cfg.tiny { 2 } else { rng.range(4, 40) };
+            let max_run = if cfg.tiny { 2 } else { *rng.pick(&[4usize, 8, 12, 19]) };
+            let block = if cfg.tiny { 3 } else { rng.range(20, 70) };
+            let noise = if cfg.tiny { 1 } else { *rng.pick(&[2usize, 6, 12, 25]) };
+            let (a, b) = gen::moved_block_pair(&mut rng, runs, max_run, block, noise);
+            let alg = if focus == Focus::C03 {
+                if a.len().max(b.len()) < 400 && rng.chance(1, 4) { Algorithm::Lcs } else { Algorithm::Myers }
+            } else {
+                ALGS[rng.below(3)]
+            };
+            let alg = if alg == Algorithm::Lcs && a.len().max(b.len()) > 1500 { Algorithm::Myers } else { alg };
+            out.sample(|| format!("alg={} N={} M={} ({} runs, block of {})", alg_name(alg), a.len(), b.len(), runs, block));
+            out.count("moved_block_cases");
+            captured_case(focus, cfg, alg, &a, 0..a.len(), &b, 0..b.len(), rng.below(5) as u8, false, out);
         },
     ));
     v.push(family(
@@ -1032,6 +1134,21 @@ fn capture_once(
             similar::algorithms::diff_deadline(alg, &mut d, a, or.clone(), b, nr.clone(), deadline).unwrap();
             d.into_inner().into_inner().into_ops()
         }
+        8 | 9 => {
+            // a LONG-LIVED Replace<Capture> that has already served another diff (the reverse one, which
+            // ends at other positions) and was drained in between; 9: behind a fresh Compact stage
+            use similar::algorithms::{Capture, Compact, Replace};
+            let mut hook = Replace::new(Capture::new());
+            similar::algorithms::diff(alg, &mut hook, b, nr.clone(), a, or.clone()).unwrap();
+            let _ = std::mem::take(hook.as_mut()).into_ops();
+            if entry == 8 {
+                similar::algorithms::diff_deadline(alg, &mut hook, a, or.clone(), b, nr.clone(), deadline).unwrap();
+            } else {
+                let mut c = Compact::new(&mut hook, a, b);
+                similar::algorithms::diff_deadline(alg, &mut c, a, or.clone(), b, nr.clone(), deadline).unwrap();
+            }
+            std::mem::take(hook.as_mut()).into_ops()
+        }
         3 => Vec::new(), // run below
         4 => {
             // the slice entry points of the algorithms module, driving the capture stack directly
@@ -1138,6 +1255,18 @@ fn captured_case(
         }
         out.count("huge_timeout_runs");
     }
+    // the full pipeline around a hook object that has been used before must give the same ops
+    if (n + m + or.start) % 3 == 0 {
+        out.eval();
+        out.count("reused_hook_stack_runs");
+        let r = capture_once(alg, a, or.clone(), b, nr.clone(), 9, None, far);
+        let got = judge(focus, cfg, alg, a, &or, b, &nr, 9, None, &r, out);
+        if let (Some(g), Some(b0)) = (&got, &base_ops) {
+            if g != b0 && focus == Focus::C02 {
+                out.violation("ops.reused_stack_differs", format!("{} gives {} but a fresh stack gives {}", ctx(alg, a, &or, b, &nr, 9, None), fmt_ops(g), fmt_ops(b0)));
+            }
+        }
+    }
     if focus == Focus::C03 {
         return;
     }
@@ -1193,7 +1322,7 @@ fn captured_case(
     if focus == Focus::C02 || focus == Focus::C11 {
         // (a bare Capture records the raw calls, whose carried positions may legitimately sit anywhere
         // inside their run of changes - C01 - so exact positions are only demanded behind Replace)
-        let stack = if focus == Focus::C11 { 6 + ((n + m + or.start) % 2) as u8 } else { 5 + ((n + m + or.start) % 3) as u8 };
+        let stack = if focus == Focus::C11 { 6 + ((n + m + or.start) % 3) as u8 } else { 5 + ((n + m + or.start) % 4) as u8 };
         out.eval();
         let r = capture_once(alg, a, or.clone(), b, nr.clone(), stack, None, far);
         judge(focus, cfg, alg, a, &or, b, &nr, stack, None, &r, out);
@@ -1224,6 +1353,8 @@ fn ctx(alg: Algorithm, a: &[u32], or: &Range<usize>, b: &[u32], nr: &Range<usize
             5 => "algorithms::diff_deadline into a bare Capture hook",
             6 => "algorithms::diff_deadline into Replace<Capture>",
             7 => "algorithms::diff_deadline into Replace<NoFinishHook<Capture>>",
+            8 => "algorithms::diff_deadline into a long-lived Replace<Capture> that served the reverse diff before (drained with mem::take)",
+            9 => "algorithms::diff_deadline into a fresh Compact around a long-lived &mut Replace<Capture> that served the reverse diff before",
             3 => "TextDiff::configure().diff_lines over a user-defined DiffableStr (OddStr: case-insensitive Eq, U+2028 line ends, char-indexed)",
             _ => "TextDiff::configure().diff_slices",
         },
